@@ -127,6 +127,10 @@ func doGenerate(opts *options) func(*protogen.Plugin) error {
 			if !protoFile.Generate {
 				continue
 			}
+			// nothing to generate for a file that declares no messages
+			if len(protoFile.Messages) == 0 {
+				continue
+			}
 
 			// account for per-message output mode
 			// - default output template is "[protofile].pb.fm.go"
